@@ -6,7 +6,10 @@
     [PageErr status]; a successful [get_page] takes a reference that
     [put_page] gives back (events [EvGet] / [EvPut]).  Addresses are 64-bit
     ([wadd]); [page_align] is the C expression [addr & -page_size];
-    [addr % page_size] with [page_size = 0] is the outcome [DivZero].
+    both functions refuse to work with an unknown page size (0) up front (the
+    check added by "fix: read: fail cleanly when the page size is not known");
+    [addr % page_size] with [page_size = 0] inside the loops stays the
+    outcome [DivZero] (unreachable behind that check).
     Copies out of the page and into the caller's buffer are bounds-checked
     ([OOB]).  [realloc] answers come from an oracle list; every successful
     [realloc] hands out a fresh token ([EvAlloc]) and retires the old one
@@ -94,7 +97,13 @@ Fixpoint read_loop (fuel : nat) (addr remain : N) (buf : list N) (pos : nat)
     end.
 
 (** [read_locked(ctx, as, addr, buffer, plength)] with [*plength = plength] *)
+Definition KDUMP_ERR_NODATA : Z := 3%Z.
+
 Definition read_locked (fuel : nat) (addr plength : N) (buffer : list N) : rout :=
+  (* if ( *plength && !get_page_size(ctx)) { *plength = 0; return set_error(KDUMP_ERR_NODATA); } *)
+  if negb (plength =? 0) && (page_size =? 0) then
+    RDone {| rr_status := KDUMP_ERR_NODATA; rr_plength := 0; rr_buffer := buffer; rr_events := [] |}
+  else
   match read_loop fuel addr plength buffer 0 [] with
   | inr o => o
   | inl (ret, remain, buf, evs) =>
@@ -171,7 +180,10 @@ Fixpoint string_loop (fuel : nat) (addr : N) (str : option (nat * list N))
   end.
 
 Definition read_string_locked (fuel : nat) (addr : N) (oracle : list bool) : sout :=
-  string_loop fuel addr None oracle 0%nat [].
+  (* if (!get_page_size(ctx)) return set_error(KDUMP_ERR_NODATA, "Page size is not known"); *)
+  if page_size =? 0 then
+    SDone {| sr_status := KDUMP_ERR_NODATA; sr_string := None; sr_events := [] |}
+  else string_loop fuel addr None oracle 0%nat [].
 
 End Read.
 
